@@ -95,7 +95,7 @@ def default_wall(inset=0.2, slanted=False, mirror=False, clockwise=False):
     rmin, rmax, zmin, zmax = 1.0 + inset, 2.0 - inset, -0.7 + inset, 0.7 - inset
     if slanted:
         # slanted lower targets, extra vertices
-        w = [(rmin, zmin + 0.08), (rmin, 0.0), (rmin, zmax), (1.5, zmax + 0.04), (rmax, zmax), (rmax, 0.1), (rmax, zmin - 0.03), (1.5, zmin)]
+        w = [(rmin, zmin + 0.10), (rmin, 0.0), (rmin, zmax), (1.5, zmax + 0.04), (rmax, zmax), (rmax, 0.1), (rmax, zmin + 0.06), (1.5, zmin + 0.03)]
     else:
         w = [(rmin, zmin), (rmin, zmax), (rmax, zmax), (rmax, zmin)]
     if mirror:
